@@ -42,5 +42,19 @@ TEXTS["C13"] = {
     "note": "Translation validation until the refinement theorems over Model.Lpm are finished.",
 }
 
+_TABLE_TECH = "hand-written Lean 4 model of the table layer (Model.Table over abstract ordered maps + Model.Lpm) validated against statedb by an exact differential check of every API observation over generated transaction histories; independent reference oracle (Go maps + the property's definitions) on the implementation; Lean theorems under construction"
+_TABLE_NOTE = "Translation validation until the theorems over Model.Table are finished; the differential check is testing, bounded by the generator. Watch-channel identities are not modelled at table level (decided by the oracle and by C12's model)."
+for _pid, _txt in {
+    "C01": "Every retained snapshot is re-queried through several indexes after later commits, aborts, pending writes and collector runs; its answers must equal the first answers (stability oracle) and the model's. The copy-on-write stamp discipline facts are regenerated from part/txn.go and lpm/trie.go. One genuine defect (shared lpmEntry tail) was found and repaired.",
+    "C03": "Return values, errors and resulting contents of Insert/InsertWatch/Modify/Delete/DeleteAll/CompareAndSwap/CompareAndDelete, incl. writes to tables not held and through finished transactions, are compared with the model and with a keyed-map specification; guard revision 0 is a known finding (K5).",
+    "C04": "Get/List/Prefix/LowerBound/All/NumObjects/ByRevision through primary, unique, non-unique multi-key and LPM indexes are compared with a specification computed from the table contents (none missing, none stale, ordering, de-duplication) inside write transactions and on snapshots, with empty keys and 0x00/0x01/0xff bytes. Two genuine defects (KeySet emptiness, List on the empty key) were found and repaired.",
+    "C06": "For every watch variant the harness records the query's specified result; after each commit a channel whose query result changed must be closed, after an abort none may be newly closed, fresh snapshot queries must hand out open channels, and a newly closed channel implies a newer table revision (violated by K3, known finding). The ordering relative to the committer is decided by the sched suite.",
+    "C07": "Change iterators created at arbitrary points are driven with ReadTxn and WriteTxn arguments, full / partial / no consumption and interleaved collector steps; delivered revisions must increase strictly and, whenever Next reported pending changes and the sequence was drained, replaying everything delivered must equal the snapshot; open watches must deliver nothing and be closed by the next changing commit.",
+    "C08": "Collector runs (whole, or paused between the lock-free scan and the write transaction while the table changes) are driven through hooks; after a complete run the graveyard must hold exactly the deletions some open iterator created before them has not been handed, zero once all caught up or closed.",
+    "C09": "After every operation the table revision on the transaction and on snapshots is compared with the specification: strictly increasing on success, unchanged by no-op deletes / rejected CAS/CAD / aborts, equal to the revision stored with the written object, ByRevision strictly ascending.",
+    "C19": "Initialized / PendingInitializers on snapshots and write transactions over arbitrary orders of register / mark-done in committed and aborted transactions; the init watch must close exactly when a committed state is initialized. One genuine defect (sync.Once consumed by an aborted mark) was found and repaired.",
+}.items():
+    TEXTS[_pid] = {"engine": "lean-model+extract+harness", "design_ref": "4/" + _pid, "technique": _TABLE_TECH, "text": _txt, "note": _TABLE_NOTE}
+
 # every property not in TEXTS/PROPS must be listed here with a reason
 NOT_APPLICABLE = []
